@@ -42,12 +42,26 @@ template <class G> static void add_grads(Canon &c, const G &g) {
 }
 // every observable of a spline, as raw bytes
 // hint >= -1: evaluations go through the hinted overload, every query starting from a copy of that (possibly stale) caller-held hint
-static std::string observe(Sp &s, int N, int hint = -2) {
+template <class G> static void dirty_fill(G &g, int n) {
+  g.inner_points = Mat::Constant(std::max(0, n - 1), D, 7.5); g.times = Eigen::VectorXd::Constant(n, -7.5); g.start.p.setConstant(7.5); g.start.v.setConstant(7.5); g.end.p.setConstant(7.5); g.end.v.setConstant(7.5);
+  if constexpr (S >= 3) { g.start.a.setConstant(7.5); g.end.a.setConstant(7.5); }
+  if constexpr (S >= 4) { g.start.j.setConstant(7.5); g.end.j.setConstant(7.5); }
+}
+// refo: the gradient queries go through the REFERENCE-OUTPUT overloads, handed caller objects that still hold the results of other problems --
+// an exactly fitting but dirty buffer, and a Gradients object last filled for a problem two segments larger (seeded changes C10-m9 / C10-m10:
+// "only clear on (re)allocation", inner-point gradient not shrunk for a single segment)
+static std::string observe(Sp &s, int N, int hint = -2, bool refo = false) {
   Canon c;
+  typedef typename Sp::Gradients Grads;
+  auto dirty_grads = [&](int n) { Grads g; dirty_fill(g, n); return g; };
   c.mat(s.getTrajectory().getCoefficients()); c.vec(s.getTrajectory().getBreakpoints()); c.vec(s.getCumulativeTimes()); c.vec(s.getTimeSegments()); c.mat(s.getSpacePoints());
   c.d(s.getStartTime()); c.d(s.getEndTime()); c.d(s.getDuration()); c.i(s.getNumSegments()); c.i(s.isInitialized());
-  c.d(s.getEnergy()); add_grads(c, s.getEnergyGrad()); c.mat(s.getEnergyPartialGradByCoeffs()); c.mat(s.getEnergyPartialGradByTimes());
-  for (int kind = 0; kind < 2; ++kind) { Mat g; Eigen::VectorXd gt; upstream(N, kind, g, gt); add_grads(c, s.propagateGrad(g, gt)); }
+  if (!refo) { c.d(s.getEnergy()); add_grads(c, s.getEnergyGrad()); c.mat(s.getEnergyPartialGradByCoeffs()); c.mat(s.getEnergyPartialGradByTimes());
+    for (int kind = 0; kind < 2; ++kind) { Mat g; Eigen::VectorXd gt; upstream(N, kind, g, gt); add_grads(c, s.propagateGrad(g, gt)); } }
+  else { c.d(s.getEnergy()); { Grads g = dirty_grads(N + 2); s.getEnergyGrad(g); add_grads(c, g); }
+    { Mat pc = Mat::Constant(M * N, D, 7.5); s.getEnergyPartialGradByCoeffs(pc); c.mat(pc); Mat pc2 = Mat::Constant(M * (N + 2), D, 7.5); s.getEnergyPartialGradByCoeffs(pc2); if (!mat_bits_equal(pc, pc2)) c.tag("partial-coeffs: result depends on the size of the caller's buffer"); }
+    { Eigen::VectorXd pt = Eigen::VectorXd::Constant(N, 7.5); s.getEnergyPartialGradByTimes(pt); c.mat(pt); }
+    for (int kind = 0; kind < 2; ++kind) { Mat g; Eigen::VectorXd gt; upstream(N, kind, g, gt); Grads out = dirty_grads(kind == 0 ? N + 2 : N); s.propagateGrad(g, gt, out); add_grads(c, out); } }
   const auto &b = s.getTrajectory().getBreakpoints();
   for (int k = 0; k <= M; ++k) for (size_t i = 0; i < b.size(); ++i) { double t = i + 1 < b.size() ? b[i] + 0.3 * (b[i + 1] - b[i]) : b[i]; auto v = s.getTrajectory().evaluate(t, k); c.raw(v.data(), sizeof(double) * D); }
   // values at every knot itself and just inside both neighbours (right-continuity), order 0 and 1
@@ -87,7 +101,7 @@ struct World {
   std::string check(std::string &digest) {
     if (m < 0) { digest = "none"; return X->isInitialized() ? "default-constructed spline claims to be initialised" : ""; }
     const auto &p = problems()[m];
-    digest = observe(*X, p.N, hint);   // the long-lived object, queried through the hinted overloads with the caller's current hint ...
+    digest = observe(*X, p.N, hint, true);   // the long-lived object, queried through the hinted overloads with the caller's current hint ...
     Sp fresh(p.T, p.P, p.t0, p.bc);
     std::string want = observe(fresh, p.N);   // ... must agree with un-hinted queries of a fresh object
     if (digest != want) {
@@ -95,6 +109,7 @@ struct World {
       Canon a, b; a.mat(X->getTrajectory().getCoefficients()); b.mat(fresh.getTrajectory().getCoefficients());
       if (a.s != b.s) return "coefficients differ from a freshly constructed spline with the same latest inputs";
       if (!bits_equal(X->getEnergy(), fresh.getEnergy())) return "getEnergy differs from a freshly constructed spline";
+      if (observe(*X, p.N, hint, false) == want) return "a reference-output overload (getEnergyGrad / getEnergyPartialGradBy* / propagateGrad) handed a used caller object differs from the by-value result of a fresh spline";
       if (observe(*X, p.N) == want) return fmt("a hinted evaluation starting from the caller-held hint %d (left by earlier queries) differs from the un-hinted evaluation", hint);
       return "an observable (energy gradient / partials / propagateGrad / evaluate) differs bitwise from a freshly constructed spline with the same latest inputs";
     }
